@@ -764,6 +764,34 @@ def rule_parser_helpers(repo: Repo) -> List[Ob]:
         obs.append(Ob("E-probabilities", f"{rp}::{cat.qualname}::validated::{call_name(sk)}", rp, sk.lineno, cat.qualname, ok,
                       f"constant probability vectors are checked ({how}) before {call_name(sk)}(...)" if ok else
                       f"`{src(sk)[:60]}` is built without validating the probabilities: `x = 1 {{3/2}} 2` or a negative probability is accepted and analysed"))
+    # --- the validator looks at every probability, for both defects (negative entry, total above 1)
+    vf, vparam = _find_validator(repo, st, cat, pname)
+    if vf is not None:
+        vc = cfg_of(vf.node)
+        vd = Defs(vf.node, vf.params()[0] if vf.params() else None)
+        guards = [t for t, _ in vc.raise_guards() if ("param:" + vparam) in vd.roots(t.ast)]
+
+        def cmp_const(t, k):
+            for n in ast.walk(t.ast):
+                if isinstance(n, ast.Compare) and len(n.ops) == 1 and isinstance(n.ops[0], (ast.Lt, ast.Gt, ast.LtE, ast.GtE)):
+                    for side in (n.left, n.comparators[0]):
+                        if isinstance(side, ast.Constant) and side.value == k and not isinstance(side.value, bool):
+                            return True
+            return False
+        neg = any(cmp_const(t, 0) for t in guards)
+        tot = any(cmp_const(t, 1) for t in guards)
+        early = []
+        for loop in [n for n in walk_no_nested(vf.node) if isinstance(n, ast.For) and ("param:" + vparam) in vd.roots(n.iter)]:
+            for n in ast.walk(loop):
+                if isinstance(n, (ast.Return, ast.Break)):
+                    early.append(n)
+        obs.append(Ob("E-probabilities", f"{rp}::{vf.qualname}::negative", rp, vf.node.lineno, vf.qualname, neg,
+                      "a raising test compares the (constant) probabilities with 0" if neg else "no raising test rejects negative probabilities"))
+        obs.append(Ob("E-probabilities", f"{rp}::{vf.qualname}::total", rp, vf.node.lineno, vf.qualname, tot,
+                      "a raising test compares the accumulated total with 1" if tot else "no raising test rejects totals above 1"))
+        obs.append(Ob("E-probabilities", f"{rp}::{vf.qualname}::exhaustive", rp, early[0].lineno if early else vf.node.lineno, vf.qualname, not early,
+                      "the validation loop visits every probability (no early exit other than raise)" if not early else
+                      f"the validation loop is left early by `{src(early[0])}`: the entries after the first such element, and the total, are never checked"))
     # --- implicit last probability = 1 - sum(others)
     lasts = [n for n in walk_no_nested(cat.node) if isinstance(n, ast.Call) and call_name(n) == "append" and isinstance(n.func.value, ast.Name) and n.func.value.id == (pname or "probabilities")]
     ok = bool(lasts)
@@ -875,6 +903,25 @@ def _validated(repo, st, m, c, defs, sink_call, pname) -> Tuple[bool, str]:
     return False, ""
 
 
+def _find_validator(repo, st, m, pname):
+    """the function whose raise-guards validate the probability list: a helper called with it, or m itself"""
+    for call in walk_no_nested(m.node):
+        if isinstance(call, ast.Call) and any(isinstance(a, ast.Name) and a.id == pname for a in call.args):
+            callee = None
+            if isinstance(call.func, ast.Attribute) and isinstance(call.func.value, ast.Name) and call.func.value.id == m.params()[0]:
+                callee = st.find_method(call.func.attr)
+            elif isinstance(call.func, ast.Name):
+                r = repo.resolve_name(m.module, call.func.id)
+                callee = r[1] if r and r[0] == "func" else None
+            if callee is not None and _raises_on_param(callee, call, pname):
+                params = callee.params()
+                if callee.cls is not None and params and params[0] in ("self", "cls"):
+                    params = params[1:]
+                idx = next(i for i, a in enumerate(call.args) if isinstance(a, ast.Name) and a.id == pname)
+                return callee, params[idx]
+    return None, None
+
+
 def _raises_on_param(callee: FunctionInfo, call: ast.Call, argname: str) -> bool:
     params = callee.params()
     if callee.cls is not None and params and params[0] in ("self", "cls"):
@@ -958,5 +1005,5 @@ RULES = {
     "SOLVERFLAG": Rule("H2-solver-flag", rule_solver_flag, 6, "solver exactness is the flag returned with the roots and is forwarded unchanged", mut_solver_flag),
     "VOCAB": Rule("D3-vocabulary", rule_vocabulary, 14, "function-name literals are in the grammar's vocabulary; dispatchers are total; mixing trig/exp is refused", mut_vocabulary),
     "SIMULATOR": Rule("S-simulator", rule_simulator, 6, "the simulator's dispatch, first-match branching, guard stuttering and guarded assignment have the semantics the analysis assumes", mut_simulator),
-    "PARSER": Rule("E-probabilities", rule_parser_helpers, 6, "probabilistic choices are validated, assigned names are CAS symbols, simultaneous assignment and categorical expansion keep their alignment", mut_parser_helpers),
+    "PARSER": Rule("E-probabilities", rule_parser_helpers, 9, "probabilistic choices are validated, assigned names are CAS symbols, simultaneous assignment and categorical expansion keep their alignment", mut_parser_helpers),
 }
